@@ -458,7 +458,10 @@ def to_config(case: Dict[str, Any]) -> List[Dict[str, Any]]:
             variables = {}
             for v, spec in sw["vars"].items():
                 if spec["kind"] == "values":
-                    variables[v] = {"values": list(spec["values"])}
+                    if spec.get("form") == "list" and len(spec["values"]) != 2:
+                        variables[v] = list(spec["values"])  # bare-list shorthand (unambiguous when len != 2)
+                    else:
+                        variables[v] = {"values": list(spec["values"])}
                 elif spec["kind"] == "ctx":
                     variables[v] = {"from_context": spec["key"]}
                 else:
